@@ -66,6 +66,11 @@ def atlas_param_docs():
         paths = {}
         for kn, sch in PARAM_KINDS.items():
             paths[f"/{loc}/{kn}"] = {"get": op(f"{loc}_{kn}", [P("r-Val", loc, sch, True), P("o_val", loc, sch, False), P("X-Plain", loc, {"type": "string"}, False)])}
+        # optional declared BEFORE required, with nothing else in the signature (keyword-only marker / ordering)
+        paths[f"/{loc}/order"] = {"get": op(f"{loc}_order", [P("o1", loc, {"type": "string"}, False), P("r1", loc, {"type": "integer"}, True)])}
+        paths[f"/{loc}/order/{{pid}}"] = {"get": op(f"{loc}_order_path", [P("pid", "path", {"type": "string", "default": "dflt"}), P("r2", loc, {"type": "string"}, True),
+                                                                       P("o2", loc, {"type": "string", "default": "z"}, False)])}
+        paths[f"/{loc}/single"] = {"get": op(f"{loc}_single_optional", [P("only", loc, {"type": "string"}, False)])}
         docs.append((f"params_{loc}", doc(paths)))
     return docs
 
@@ -96,6 +101,8 @@ def atlas_path_docs():
             "get": op("ref_params", [P("itemId", "path", {"type": "integer"}), {"$ref": "#/components/parameters/PageSize"}, {"$ref": "#/components/parameters/SessionId"}]),
             "delete": op("ref_params_item_only", [P("itemId", "path", {"type": "integer"})]),
         },
+        "/users/{user-id}/user-id-aliases/{alias}": {"get": op("literal_contains_name", [P("alias", "path", {"type": "string"}), P("user-id", "path", {"type": "integer"})])},
+        "/v/{v}/v-items/{v-item}/v": {"delete": op("literal_contains_name2", [P("v-item", "path", {"type": "string"}), P("v", "path", {"type": "integer"})])},
         "/reserved/{client}": {"get": op("reserved_names", [P("client", "path", {"type": "string"}), P("url", "query", {"type": "string"}, False)])},
         "/noparams": {"get": op("no_params"), "post": op("no_params_post")},
         # operations WITHOUT an operationId: the function / module name is derived from method + path
@@ -173,6 +180,25 @@ def atlas_response_docs():
     }
     extra = {"components": {"responses": {"Ok": Jc({"$ref": REF + "Item"}), "Missing": {"description": "m", "content": {"text/plain": {"schema": {"type": "string"}}}}}}}
     return [("responses", doc(paths, extra=extra))]
+
+
+OVERRIDES = {"application/x-yaml": "text/yaml", "application/zip": "application/octet-stream", "application/hal": "application/json",
+             "application/x-ndjson": "application/json", "application/x-form": "application/x-www-form-urlencoded", "text/x-weird": "application/json"}
+
+
+def atlas_override_docs():
+    """[(label, doc, cfg)]: media types that become supported (or change their meaning) only through the content_type_overrides option"""
+    R = lambda ct, s: {"description": "d", "content": {ct: {"schema": s}}}
+    paths = {
+        "/ov/yaml": {"get": op("ov_yaml", responses={"200": R("application/x-yaml", {"type": "string"}), "404": {"description": "n"}})},
+        "/ov/zip": {"get": op("ov_zip", responses={"200": R("application/zip", {"type": "string", "format": "binary"})})},
+        "/ov/hal": {"get": op("ov_hal", responses={"200": R("application/hal", {"$ref": REF + "Item"}), "404": R("application/json", {"$ref": REF + "Other"})})},
+        "/ov/weird": {"get": op("ov_text_becomes_json", responses={"200": R("text/x-weird", {"$ref": REF + "Other"})})},
+        "/ov/notlisted": {"get": op("ov_not_listed", responses={"200": R("application/x-other", {"type": "string"}), "201": R("application/json", {"$ref": REF + "Item"})})},
+        "/ov/body/ndjson": {"post": op("ov_body_ndjson", body={"content": {"application/x-ndjson": {"schema": {"$ref": REF + "Item"}}}, "required": True})},
+        "/ov/body/form": {"post": op("ov_body_form", body={"content": {"application/x-form": {"schema": {"$ref": REF + "Other"}}}, "required": True})},
+    }
+    return [("overrides", doc(paths), {"content_type_overrides": dict(OVERRIDES)})]
 
 
 def atlas_docs():
